@@ -96,7 +96,10 @@ Decoded check_file(const std::string& name, const std::string& fmt, const std::s
     if (!r.ok) {
         // a rejection that names the BlobHeader is classified by the BlobHeader lengths in the file
         const std::string hc = r.error.find("BlobHeader") != std::string::npos ? hdr_ctx : std::string();
-        vh::violation(name + ": reader rejects a spec-conformant file" + (hc.empty() ? ctx : hc) + ": " + r.error_type + ": " + msg_class(r.error), r.error + " | " + witness);
+        // o5m files of the special classes (tiny / short final dataset / wrap-around): one key per class,
+        // whatever the symptom - a parser that works on stale input fails in many ways
+        if (name == "o5m" && !ctx.empty()) vh::violation("o5m: reader rejects a spec-conformant file or loses objects" + ctx, r.error_type + ": " + r.error + " | " + witness);
+        else vh::violation(name + ": reader rejects a spec-conformant file" + (hc.empty() ? ctx : hc) + ": " + r.error_type + ": " + msg_class(r.error), r.error + " | " + witness);
         return d;
     }
     d.ok = true;
@@ -117,7 +120,8 @@ Decoded check_file(const std::string& name, const std::string& fmt, const std::s
         }
     }
     if (d.objs.size() != expect.size()) {
-        vh::violation(name + ": number of decoded objects differs" + ctx, vh::fmt("file describes %zu objects, reader delivered %zu | ", expect.size(), d.objs.size()) + witness);
+        vh::violation((name == "o5m" && !ctx.empty() ? std::string("o5m: reader rejects a spec-conformant file or loses objects") : name + ": number of decoded objects differs") + ctx,
+                      vh::fmt("file describes %zu objects, reader delivered %zu | ", expect.size(), d.objs.size()) + witness);
         return d;
     }
     for (size_t i = 0; i < expect.size(); ++i) {
